@@ -119,7 +119,13 @@ fn main() {
                             }
                         }
                         Some(q) if q == p => {
-                            // stayed: fine whenever p is measured (either best, or kept by stickiness)
+                            // (4) stayed on the previous choice: fine if it still has the best recent latency, or the best candidate is
+                            //     NOT at most two thirds of its lowest current latency; staying although a relay is that much better
+                            //     contradicts "chosen by best latency"
+                            let old_low = lowest(lat, q).unwrap();
+                            if bp != overall && old_low > 0 && overall * 3 <= old_low * 2 {
+                                fail("switches-when-much-better", "other", format!("report #{k}: stayed on {q} (lowest current latency {old_low} ms) although a measured relay has best recent latency {overall} ms <= 2/3 of it"));
+                            }
                         }
                         _ => {
                             // (2) no (measured) previous choice: the relay with the best recent latency
